@@ -200,7 +200,11 @@ pub fn run(rep: &Report) -> serde_json::Value {
                     RefVal::Pid { node: node.clone(), id: id ^ 1, serial: *serial, creation: *creation }, RefVal::Pid { node: node.clone(), id: *id, serial: serial ^ 1, creation: *creation },
                     RefVal::Pid { node: node.clone(), id: *id, serial: *serial, creation: creation ^ 1 }, RefVal::Pid { node: format!("{}x", node.chars().take(5).collect::<String>()), id: *id, serial: *serial, creation: *creation }],
                 RefVal::Port { node, id, creation } => vec![RefVal::Port { node: node.clone(), id: id ^ 1, creation: *creation }, RefVal::Port { node: node.clone(), id: id ^ (1 << 40), creation: *creation }, RefVal::Port { node: node.clone(), id: *id, creation: creation ^ 1 }],
-                RefVal::Ref { node, creation, ids } => { let mut a = ids.clone(); a[0] ^= 1; let mut b = ids.clone(); let l = b.len() - 1; b[l] ^= 1; vec![RefVal::Ref { node: node.clone(), creation: *creation, ids: a }, RefVal::Ref { node: node.clone(), creation: *creation, ids: b }, RefVal::Ref { node: node.clone(), creation: creation ^ 1, ids: ids.clone() }] }
+                RefVal::Ref { node, creation, ids } => { let mut a = ids.clone(); a[0] ^= 1; let mut b = ids.clone(); let l = b.len() - 1; b[l] ^= 1; { let mut vs = vec![RefVal::Ref { node: node.clone(), creation: *creation, ids: a }, RefVal::Ref { node: node.clone(), creation: *creation, ids: b }, RefVal::Ref { node: node.clone(), creation: creation ^ 1, ids: ids.clone() }];
+                    // one word more in front / behind, one word less in front / behind (a list of words is not its suffix or prefix)
+                    if ids.len() < 5 { let mut f = vec![9u32]; f.extend(ids.iter().copied()); vs.push(RefVal::Ref { node: node.clone(), creation: *creation, ids: f }); let mut g = ids.clone(); g.push(9); vs.push(RefVal::Ref { node: node.clone(), creation: *creation, ids: g }); }
+                    if ids.len() > 1 { vs.push(RefVal::Ref { node: node.clone(), creation: *creation, ids: ids[1..].to_vec() }); vs.push(RefVal::Ref { node: node.clone(), creation: *creation, ids: ids[..ids.len() - 1].to_vec() }); }
+                    vs } }
                 _ => vec![],
             };
             let (_, plain_v, _) = &fs[0];
